@@ -1,6 +1,7 @@
 package e5path
 
 import (
+	"os"
 	"fmt"
 	"go/constant"
 	"go/token"
@@ -433,6 +434,9 @@ func RootWildcardsReachDependants(p *load.Prog, r *oblig.Report, rule string, fu
 							toEdges++
 						} else {
 							toNodes++
+							if !strings.Contains(target, ".from.uniqueLabel]") {
+								bad["served-node"] = fmt.Sprintf("the node that receives the wildcards of the resolved root is %s, not the node the dependant edge leaves (nodes[edge.from…]) (%s)", pathx.StripUnique(target), p.Pos(st.Pos()))
+							}
 						}
 					default:
 						bad[pathx.StripUnique(s)] = fmt.Sprintf("while the dependants of the resolved cycle root %s are patched, the wildcards of %s receive those of %s (%s) — neither the object itself nor the root: the dependant names public types the root does not contribute and misses those it does", pathx.StripUnique(rootKey), pathx.StripUnique(target), pathx.StripUnique(s), p.Pos(st.Pos()))
@@ -719,8 +723,24 @@ func WildcardNameStrip(p *load.Prog, r *oblig.Report, rule string, funcs []*ssa.
 				}
 				n++
 				construct := "wildcard-name:" + load.FuncName(f)
-				if k.Int64() == int64(len(":*")) {
-					r.OK(rule, construct, p.Pos(sl.Pos()), "suffix-length", "label[:len(label)-2]")
+				// only the label of a wildcard node has that suffix
+				// accepted guards: kind == SpecificTypeWildcard (if / switch / negated early exit), a suffix test on
+				// the label, or a predicate of the repository's own (not looked into: no alarm on an idiom the rule does not know)
+				guarded := wildcardGuarded(p, b)
+				if !guarded {
+					// a helper that only strips: the guard is where it is called
+					sites := callSitesOf(funcs, f)
+					guarded = len(sites) > 0
+					for _, site := range sites {
+						if !wildcardGuarded(p, site.Block()) {
+							guarded = false
+						}
+					}
+				}
+				if !guarded {
+					r.Bad(rule, construct, p.Pos(sl.Pos()), "two characters are cut off "+stripUnique(AccessPath(sl.X))+" at a place that is not guarded by 'node kind == SpecificTypeWildcard': the label of a type or relation node loses its last two characters and is recorded as a public type")
+				} else if k.Int64() == int64(len(":*")) {
+					r.OK(rule, construct, p.Pos(sl.Pos()), "suffix-length", "label[:len(label)-2] under kind == SpecificTypeWildcard")
 				} else {
 					r.Bad(rule, construct, p.Pos(sl.Pos()), fmt.Sprintf("the name of a public type is taken as %s[:len-%d]; the suffix of a wildcard label ':*' has 2 characters: the wildcard lists would name a string that is not the type", stripUnique(AccessPath(sl.X)), k.Int64()))
 				}
@@ -1221,6 +1241,7 @@ func CycleSegmentStart(p *load.Prog, r *oblig.Report, rule string) {
 	work := []ctx{{fn, map[ssa.Value]bool{node: true}}}
 	seen := map[*ssa.Function]bool{fn: true}
 	fromCmp, toCmp := 0, ""
+	kindOnSource := ""
 	for len(work) > 0 {
 		c := work[0]
 		work = work[1:]
@@ -1257,6 +1278,18 @@ func CycleSegmentStart(p *load.Prog, r *oblig.Report, rule string) {
 				case *ssa.BinOp:
 					if x.Op != token.EQL && x.Op != token.NEQ {
 						continue
+					}
+					// "a direct edge into a userset" is a test on the edge's target
+					for _, side := range []ssa.Value{x.X, x.Y} {
+						if cst, ok := side.(*ssa.Const); ok && cst.Value != nil && strings.HasSuffix(cst.Type().String(), ".NodeType") {
+							otherSide := x.X
+							if side == x.X {
+								otherSide = x.Y
+							}
+							if strings.HasSuffix(AccessPath(otherSide), ".from.nodeType") {
+								kindOnSource = p.Pos(x.Pos())
+							}
+						}
 					}
 					var other ssa.Value
 					switch {
@@ -1339,9 +1372,52 @@ func CycleSegmentStart(p *load.Prog, r *oblig.Report, rule string) {
 			}
 		}
 	}
+	// the verdict is a function of the ancestor path of THIS call: an answer read from a table (a verdict remembered
+	// per node) is the verdict of another path
+	remembered := ""
+	for _, b := range fn.Blocks {
+		ret, ok := b.Instrs[len(b.Instrs)-1].(*ssa.Return)
+		if !ok || len(ret.Results) != 1 {
+			continue
+		}
+		var from func(v ssa.Value, depth int) bool
+		from = func(v ssa.Value, depth int) bool {
+			if depth > 6 {
+				return false
+			}
+			switch x := v.(type) {
+			case *ssa.Lookup:
+				_, isMap := x.X.Type().Underlying().(*types.Map)
+				return isMap
+			case *ssa.Extract:
+				return from(x.Tuple, depth+1)
+			case *ssa.Phi:
+				for _, e := range x.Edges {
+					if from(e, depth+1) {
+						return true
+					}
+				}
+			case *ssa.UnOp:
+				if x.Op == token.NOT {
+					return from(x.X, depth+1)
+				}
+				if fa, ok := x.X.(*ssa.FieldAddr); ok && x.Op == token.MUL && len(fn.Params) > 0 && fa.X == ssa.Value(fn.Params[0]) {
+					return true
+				}
+			}
+			return false
+		}
+		if from(ret.Results[0], 0) {
+			remembered = p.Pos(ret.Pos())
+		}
+	}
 	switch {
+	case remembered != "":
+		r.Bad(rule, construct, remembered, "the answer is read from a table or a field instead of being derived from the ancestor path handed in: whether a back edge closes a tuple cycle depends on the edges between the revisited node and the current one, and two back edges to the same node can differ in that")
 	case earlyTrue != "" && toCmp == "":
 		r.Bad(rule, construct, p.Pos(fn.Pos()), "the back edge is classified as a tuple cycle on a path that did not recognise where the cycle starts (no ancestor edge was found to leave the revisited node; "+earlyTrue+"): tuple edges that lie before the cycle are counted, so a rewrite-only cycle reached over a tuple edge passes")
+	case kindOnSource != "":
+		r.Bad(rule, construct, kindOnSource, "whether an ancestor edge is a tuple edge is asked of the kind of its SOURCE node: a direct edge needs a tuple when it leads INTO a userset (type#relation), whatever it leaves")
 	case toCmp != "":
 		r.Bad(rule, construct, toCmp, "the revisited node is compared with the TARGET of an ancestor edge: the edge through which the search entered the cycle is counted as part of the cycle, so a rewrite-only cycle reached over a tuple edge passes as a tuple cycle")
 	case fromCmp == 0:
@@ -1376,7 +1452,12 @@ func NoDiscardedMaps(p *load.Prog, r *oblig.Report, rule string, funcs []*ssa.Fu
 						} else {
 							published = true
 						}
-					case *ssa.Lookup, *ssa.DebugRef, *ssa.Range:
+					case *ssa.Lookup:
+						// a local index: what is looked up is used for something other than filling this same map
+						if valueEscapesMap(x, mk, 0) {
+							published = true
+						}
+					case *ssa.DebugRef, *ssa.Range:
 					case *ssa.Call:
 						if bi, isB := x.Common().Value.(*ssa.Builtin); isB && (bi.Name() == "len" || bi.Name() == "delete") {
 							continue
@@ -1396,4 +1477,419 @@ func NoDiscardedMaps(p *load.Prog, r *oblig.Report, rule string, funcs []*ssa.Fu
 	if bad == 0 {
 		r.OK(rule, "discarded-map", "-", "def-use", fmt.Sprintf("%d maps made in the reachable repository functions, each one that is filled is also stored, returned or handed on", made))
 	}
+}
+
+// AccessorFidelity (what a user of the graph sees): an exported parameterless method of a node / edge type whose body
+// is "return receiver.field" returns the field it is named after (GetFrom → from, GetTo → to, GetWildcards →
+// wildcards, Label → label …). The graph is observed through these accessors; one that hands out a sibling field of
+// the same type (to for from, conditions for wildcards) turns every edge round for the caller while the structure
+// itself, and every test that reads the fields directly, stays right.
+func AccessorFidelity(p *load.Prog, r *oblig.Report, rule string, typeNames []string) {
+	pk := p.Pkgs["graph"]
+	if pk == nil {
+		r.Unknown(rule, "accessor:anchor", "-", "package graph not loaded")
+		return
+	}
+	n := 0
+	for _, tn := range typeNames {
+		obj := pk.Types.Scope().Lookup(tn)
+		if obj == nil {
+			r.Unknown(rule, "accessor:anchor:"+tn, "-", "type not found")
+			continue
+		}
+		named, ok := obj.Type().(*types.Named)
+		if !ok {
+			continue
+		}
+		for i := 0; i < named.NumMethods(); i++ {
+			m := named.Method(i)
+			if !m.Exported() {
+				continue
+			}
+			f := p.SSA.FuncValue(m)
+			if f == nil || len(f.Blocks) != 1 || len(f.Params) != 1 {
+				continue
+			}
+			ret, ok := f.Blocks[0].Instrs[len(f.Blocks[0].Instrs)-1].(*ssa.Return)
+			if !ok || len(ret.Results) != 1 {
+				continue
+			}
+			ld, ok := ret.Results[0].(*ssa.UnOp)
+			if !ok || ld.Op != token.MUL {
+				continue
+			}
+			fa, ok := ld.X.(*ssa.FieldAddr)
+			if !ok || fa.X != ssa.Value(f.Params[0]) {
+				continue
+			}
+			field := structFieldName(fa.X.Type(), fa.Field)
+			want := strings.TrimPrefix(m.Name(), "Get")
+			n++
+			construct := "accessor:" + tn + "." + m.Name()
+			if strings.EqualFold(want, field) {
+				r.OK(rule, construct, p.Pos(f.Pos()), "name=field", field)
+			} else {
+				r.Bad(rule, construct, p.Pos(f.Pos()), m.Name()+" returns the field "+field+": callers that walk the graph through its accessors see "+field+" where they ask for "+strings.ToLower(want[:1])+want[1:])
+			}
+		}
+	}
+	if n == 0 {
+		r.Unknown(rule, "accessor", "-", "no field accessor found on the graph types: anchors no longer resolve")
+	}
+}
+
+// ConstructorAlwaysAdds (C10.10): AddEdge is the constructor the builders call once per operand occurrence; every
+// path through it that was not turned away by a nil argument adds the edge (the store into the edge table, or
+// gonum's SetLine). De-duplication is what UpsertEdge is for and its callers ask for it; an AddEdge that looks first
+// and returns when "the edge is already there" merges the operands of 'a or a', 'x but not x', and leaves an
+// operator node with fewer edges than the rewrite has operands.
+func ConstructorAlwaysAdds(p *load.Prog, r *oblig.Report, rule, typ, method, sink string) {
+	fn := p.Method("graph", typ, method)
+	construct := "constructor-adds:" + typ + "." + method
+	if fn == nil {
+		r.Unknown(rule, construct, "-", "function not found")
+		return
+	}
+	ex := &pathx.Explorer{Root: fn, MaxPaths: 5000, Follow: func(c *ssa.Function) bool { return false }}
+	paths := ex.Explore()
+	if ex.Overflow || len(paths) == 0 {
+		r.Unknown(rule, construct, p.Pos(fn.Pos()), "paths could not be enumerated")
+		return
+	}
+	adding, bad := 0, ""
+	for _, pt := range paths {
+		if pt.End != "return" {
+			continue
+		}
+		excused := false
+		for _, f := range pt.Facts(-1) {
+			if f.Value && strings.HasSuffix(f.Atom, " == nil") {
+				excused = true
+			}
+		}
+		has := false
+		for _, ev := range pt.Events {
+			switch x := ev.Instr.(type) {
+			case *ssa.MapUpdate:
+				if sink == "edges" && strings.HasSuffix(pt.Render(ev.Term(x.Map)), ".edges") {
+					has = true
+				}
+			case *ssa.Call:
+				if x.Common().IsInvoke() && x.Common().Method.Name() == sink {
+					has = true
+				}
+				if cal := x.Common().StaticCallee(); cal != nil && cal.Name() == sink {
+					has = true
+				}
+			}
+		}
+		if has {
+			adding++
+		} else if !excused {
+			bad = factList(pt.Facts(-1))
+		}
+	}
+	switch {
+	case bad != "":
+		r.Bad(rule, construct, p.Pos(fn.Pos()), method+" returns without adding the edge on a path that no nil argument excuses (conditions: "+bad+"): an operand that occurs twice, or an edge some other step created first, leaves the graph with fewer edges than the rewrite has operands")
+	case adding == 0:
+		r.Unknown(rule, construct, p.Pos(fn.Pos()), "no path of "+method+" adds an edge: anchor no longer resolves")
+	default:
+		r.OK(rule, construct, p.Pos(fn.Pos()), "path-enumeration", fmt.Sprintf("%d returning path(s) add the edge; the others were turned away by a nil argument", adding))
+	}
+}
+
+// wildcardGuarded: the block is only reached when the node kind is SpecificTypeWildcard (if / switch / negated early
+// exit), after a suffix test on the label, or after a predicate of the repository's own (not looked into: no alarm
+// on an idiom the rule does not know).
+func wildcardGuarded(p *load.Prog, b *ssa.BasicBlock) bool {
+	tw, _ := constOf(p, "graph", "SpecificTypeWildcard")
+	for _, ce := range DominatingConds(b) {
+		switch c := ce.Cond.(type) {
+		case *ssa.BinOp:
+			if !(c.Op == token.EQL && ce.Branch) && !(c.Op == token.NEQ && !ce.Branch) {
+				continue
+			}
+			for _, side := range []ssa.Value{c.X, c.Y} {
+				if k, ok := side.(*ssa.Const); ok && tw != nil && k.Value != nil && strings.HasSuffix(k.Type().String(), ".NodeType") && constant.Compare(k.Value, token.EQL, tw) {
+					return true
+				}
+			}
+		case *ssa.Call:
+			if !ce.Branch {
+				continue
+			}
+			if callee := c.Call.StaticCallee(); callee != nil {
+				if callee.Pkg != nil && callee.Pkg.Pkg.Path() == "strings" && callee.Name() != "HasSuffix" {
+					continue
+				}
+				return true
+			}
+		}
+	}
+	return false
+}
+
+// PlaceholderNeedsTuple (C05.9): the placeholder weight "R#"+root says "this edge closes a cycle that a tuple breaks;
+// its weight comes when the root is resolved". It may be given only where a tuple on the cycle was established on
+// that path: the verdict of the cycle classifier (isTupleCycle … true), or the kind of the edge itself compared with
+// a tuple kind (TTU, direct). An edge from a node to itself is such a cycle of length one: 'define a: a' draws a
+// computed one, and a placeholder given to it without asking for its kind accepts a relation that is defined as
+// itself.
+func PlaceholderNeedsTuple(p *load.Prog, r *oblig.Report, rule string, funcs []*ssa.Function) {
+	n := 0
+	for _, fn := range funcs {
+		has := false
+		for _, b := range fn.Blocks {
+			for _, in := range b.Instrs {
+				if mu, ok := in.(*ssa.MapUpdate); ok && isPlaceholderKey(mu.Key) {
+					has = true
+				}
+			}
+		}
+		if !has {
+			continue
+		}
+		construct := "placeholder-needs-tuple:" + load.FuncName(fn)
+		ex := &pathx.Explorer{Root: fn, MaxPaths: 30000, Follow: func(c *ssa.Function) bool {
+			return c.Pkg == fn.Pkg && len(c.Blocks) > 0 && len(c.Blocks) <= 4 && !returnsErr(c) && (c.Parent() != nil || !token.IsExported(c.Name()))
+		}}
+		paths := ex.Explore()
+		if ex.Overflow || len(paths) == 0 {
+			r.Unknown(rule, construct, p.Pos(fn.Pos()), "paths could not be enumerated")
+			continue
+		}
+		n++
+		placed, bad := 0, ""
+		for _, pt := range paths {
+			for _, ev := range pt.Events {
+				mu, ok := ev.Instr.(*ssa.MapUpdate)
+				if !ok || !isPlaceholderKey(mu.Key) {
+					continue
+				}
+				// a substitution that copies an existing placeholder (the fix-up loops) is not the place where one is given
+				if c, ok := mu.Value.(*ssa.Const); !ok || c.Value == nil {
+					if !strings.Contains(pt.Render(ev.Term(mu.Value)), "Infinite") {
+						continue
+					}
+				}
+				placed++
+				established := false
+				for _, f := range pt.Facts(ev.NCond) {
+					if f.Value && (strings.Contains(f.Atom, ".edgeType == ") || strings.Contains(f.Atom, "EdgeType() == ")) {
+						established = true
+					}
+					// the verdict of a classifier of the package that is handed the ancestor path
+					t, val := pt.Resolve(f.Cond.T), f.Cond.Branch
+					for {
+						u, ok := t.V.(*ssa.UnOp)
+						if !ok || u.Op != token.NOT {
+							break
+						}
+						t, val = pt.Resolve(t.Sub(u.X)), !val
+					}
+					if call, ok := t.V.(*ssa.Call); ok && val {
+						if cal := call.Common().StaticCallee(); cal != nil && cal.Pkg == fn.Pkg {
+							for _, a := range call.Common().Args {
+								if sl, ok := a.Type().Underlying().(*types.Slice); ok && strings.HasSuffix(sl.Elem().String(), "WeightedAuthorizationModelEdge") {
+									established = true
+								}
+							}
+						}
+					}
+				}
+				if os.Getenv("VERIF_PH_DEBUG") != "" {
+					fmt.Fprintln(os.Stderr, "PH", p.Pos(mu.Pos()), factList(pt.Facts(ev.NCond)))
+				}
+				if !established {
+					bad = fmt.Sprintf("an edge is given the placeholder weight \"R#\"+… at %s on a path that established neither the verdict of the cycle classifier nor a tuple kind (TTU, direct) of the edge itself (conditions: %s): a cycle that needs no tuple, such as a relation defined as itself, passes as a tuple cycle", p.Pos(mu.Pos()), factList(pt.Facts(ev.NCond)))
+				}
+			}
+		}
+		switch {
+		case bad != "":
+			r.Bad(rule, construct, p.Pos(fn.Pos()), bad)
+		case placed == 0:
+			r.OK(rule, construct, p.Pos(fn.Pos()), "path-enumeration", "placeholders are only copied here, none is given")
+		default:
+			r.OK(rule, construct, p.Pos(fn.Pos()), "path-enumeration", fmt.Sprintf("%d placeholder store(s), each after the classifier's verdict or a tuple kind of the edge", placed))
+		}
+	}
+	if n == 0 {
+		r.Unknown(rule, "placeholder-needs-tuple", "-", "no store of a \"R#\" placeholder weight found: anchors no longer resolve")
+	}
+}
+
+func isPlaceholderKey(k ssa.Value) bool {
+	bo, ok := k.(*ssa.BinOp)
+	if !ok || bo.Op != token.ADD {
+		return false
+	}
+	c, ok := bo.X.(*ssa.Const)
+	return ok && c.Value != nil && c.Value.Kind() == constant.String && constant.StringVal(c.Value) == "R#"
+}
+
+// valueEscapesMap: a value read from the map mk reaches something other than a branch, a comparison or a store back
+// into mk (through arithmetic, conversions, math.Max / max / min and phis).
+func valueEscapesMap(v ssa.Value, mk ssa.Value, depth int) bool {
+	if depth > 6 || v.Referrers() == nil {
+		return false
+	}
+	for _, ref := range *v.Referrers() {
+		switch x := ref.(type) {
+		case *ssa.If, *ssa.DebugRef:
+		case *ssa.MapUpdate:
+			if x.Map != mk {
+				return true
+			}
+		case *ssa.Extract, *ssa.Phi, *ssa.UnOp, *ssa.Convert, *ssa.ChangeType:
+			if valueEscapesMap(x.(ssa.Value), mk, depth+1) {
+				return true
+			}
+		case *ssa.BinOp:
+			switch x.Op {
+			case token.EQL, token.NEQ, token.LSS, token.LEQ, token.GTR, token.GEQ:
+				if valueEscapesMap(x, mk, depth+1) {
+					return true
+				}
+			default:
+				if valueEscapesMap(x, mk, depth+1) {
+					return true
+				}
+			}
+		case *ssa.Call:
+			name := ""
+			if bi, ok := x.Common().Value.(*ssa.Builtin); ok {
+				name = bi.Name()
+			} else if c := x.Common().StaticCallee(); c != nil && c.Pkg != nil && c.Pkg.Pkg.Path() == "math" {
+				name = c.Name()
+			}
+			switch name {
+			case "max", "min", "Max", "Min":
+				if valueEscapesMap(x, mk, depth+1) {
+					return true
+				}
+			default:
+				return true
+			}
+		default:
+			return true
+		}
+	}
+	return false
+}
+
+// IntersectionPerOperand (C05.10, also C06: operand order): the weight of an intersection is the set of types common
+// to all OPERANDS. Found where a type is deleted from a running weight set because another set lacks it:
+//  (a) the set it is compared with is the weight set of an operand, not of a single edge — a type restriction
+//      [a, b] and a tuple to userset over several parent types are drawn with one edge per type, and edge-by-edge
+//      intersection empties the running set among the edges of one operand;
+//  (b) the running set is never refilled because it is empty: emptiness is the verdict "no common type", and a refill
+//      from the next operand makes the verdict depend on the order of the operands.
+func IntersectionPerOperand(p *load.Prog, r *oblig.Report, rule string, funcs []*ssa.Function) {
+	n := 0
+	for _, fn := range funcs {
+		if fn.Pkg == nil || fn.Pkg.Pkg.Name() != "graph" {
+			continue
+		}
+		for _, b := range fn.Blocks {
+			for _, in := range b.Instrs {
+				call, ok := in.(*ssa.Call)
+				if !ok {
+					continue
+				}
+				bi, ok := call.Common().Value.(*ssa.Builtin)
+				if !ok || bi.Name() != "delete" {
+					continue
+				}
+				running := call.Common().Args[0]
+				mt, ok := running.Type().Underlying().(*types.Map)
+				if !ok {
+					continue
+				}
+				if eb, ok := mt.Elem().Underlying().(*types.Basic); !ok || eb.Kind() != types.Int {
+					continue
+				}
+				// the lookup whose miss leads here
+				var other ssa.Value
+				for _, ce := range DominatingConds(b) {
+					v := ce.Cond
+					if ex, ok := v.(*ssa.Extract); ok {
+						if lk, ok := ex.Tuple.(*ssa.Lookup); ok && lk.CommaOk && !ce.Branch && lk.X != running {
+							other = lk.X
+						}
+					}
+				}
+				if other == nil {
+					continue
+				}
+				n++
+				construct := "intersection-per-operand:" + load.FuncName(fn)
+				perEdge := false
+				if ld, ok := other.(*ssa.UnOp); ok && ld.Op == token.MUL {
+					if fa, ok := ld.X.(*ssa.FieldAddr); ok && strings.HasSuffix(deref(fa.X.Type()).String(), "WeightedAuthorizationModelEdge") {
+						perEdge = true
+					}
+				}
+				// (b) a store into the running set under "the running set is empty"
+				refill := ""
+				for _, b2 := range fn.Blocks {
+					for _, in2 := range b2.Instrs {
+						mu, ok := in2.(*ssa.MapUpdate)
+						if !ok || mu.Map != running {
+							continue
+						}
+						for _, ce := range DominatingConds(b2) {
+							bo, ok := ce.Cond.(*ssa.BinOp)
+							if !ok {
+								continue
+							}
+							isLenOfRunning := func(v ssa.Value) bool {
+								c, ok := v.(*ssa.Call)
+								if !ok {
+									return false
+								}
+								bi, ok := c.Common().Value.(*ssa.Builtin)
+								return ok && bi.Name() == "len" && c.Common().Args[0] == running
+							}
+							zero := func(v ssa.Value) bool {
+								c, ok := v.(*ssa.Const)
+								return ok && c.Value != nil && c.Value.Kind() == constant.Int && constant.Sign(c.Value) == 0
+							}
+							if (isLenOfRunning(bo.X) && zero(bo.Y)) || (isLenOfRunning(bo.Y) && zero(bo.X)) {
+								if (bo.Op == token.EQL && ce.Branch) || (bo.Op == token.NEQ && !ce.Branch) || (bo.Op == token.GTR && !ce.Branch) {
+									if loopHeaderOfBlockE5(b2) != nil {
+										refill = p.Pos(mu.Pos())
+									}
+								}
+							}
+						}
+					}
+				}
+				switch {
+				case perEdge:
+					r.Bad(rule, construct, p.Pos(call.Pos()), "a type is dropped from the running set because the weights of a single EDGE lack it ("+stripUnique(AccessPath(other))+"): the edges of one type restriction [a, b] (or of one tuple to userset over several parent types) are one operand, and intersecting them one by one empties the set although every operand has a common type")
+				case refill != "":
+					r.Bad(rule, construct, refill, "inside the loop the running set is filled again when it is empty: an intersection that ran out of common types is final; refilled from the next operand, 'a and b and c' is accepted or rejected depending on the order of its operands")
+				default:
+					r.OK(rule, construct, p.Pos(call.Pos()), "value-origin", "compared with the weight set of an operand ("+stripUnique(AccessPath(other))+"); no refill on emptiness")
+				}
+			}
+		}
+	}
+	if n == 0 {
+		r.Unknown(rule, "intersection-per-operand", "-", "no place found where a type is deleted from a running weight set for lack of it in another: the enforce-type strategy is written in a way this rule does not read")
+	}
+}
+
+// loopHeaderOfBlockE5: some block that dominates b and is reachable from b again (b lies in a loop).
+func loopHeaderOfBlockE5(b *ssa.BasicBlock) *ssa.BasicBlock {
+	for h := b; h != nil; h = h.Idom() {
+		for _, pred := range h.Preds {
+			if h.Dominates(pred) && reachesBlockE5(b, pred) {
+				return h
+			}
+		}
+	}
+	return nil
 }
